@@ -200,7 +200,12 @@ def check(prop, tier, only=None, list_only=False):
     selftests = getattr(mod, "selftest", None)
     n_self = 0
     if selftests:
-        for qid, args, expect in selftests(tier):
+        try:
+            cases = selftests(tier)
+        except Exception as e:  # noqa
+            cases = []
+            machinery_errors.append("selftest raised %s: %s" % (type(e).__name__, e))
+        for qid, args, expect in cases:
             q = _find_query(mod, tier, qid)
             st, detail = engine.run_native(q.fn, args)
             n_self += 1
